@@ -50,6 +50,7 @@ ItemText(nm, f, pl) == CASE f = 1 -> nm
                          [] pl = "class" -> nm \o ".c" \o Forms[f].s
                          [] pl = "attr"  -> nm \o "[t=v" \o Forms[f].s \o "]"
                          [] pl = "text"  -> nm \o "{t" \o Forms[f].s \o "}"
+                         [] pl = "id"    -> nm \o "#j" \o Forms[f].s
 Item == /\ phase = "gen" /\ expect \in {"item", "climbed"} /\ ntok < MaxTok
         /\ \E nm \in Names, f \in FormIdx, pl \in Places :
               /\ (f = 1 => pl = CHOOSE q \in Places : TRUE)
